@@ -25,8 +25,11 @@ RULE = ("every script = [B writes 5 bytes first]? + <= 3 writes by A from {write
         "answers) in which a send was short or refused with EWOULDBLOCK, or two descriptors were ready in one report; states = "
         "distinct (script, kernel state, transport buffers, protocol logs) snapshots after a reactor iteration, transitions = "
         "reactor iterations executed on the real code")
-BOUNDS = {"quick": "scripts with <= 2 writes (all pacings, no echo) and 3 writes (burst pacing, half-closeable protocols), <= 1 deviation",
-          "thorough": "all scripts with <= 3 writes incl. echo with <= 1 deviation; scripts with <= 2 writes with <= 2 deviations"}
+BOUNDS = {"quick": "scripts with <= 2 writes: <= 2 deviations (plain/server-server and half-closeable/client-server, no echo), <= 1 deviation "
+                   "(all four protocol/transport kinds, with and without echo); scripts with exactly 3 writes (plain/server-server and "
+                   "half-closeable/client-server, no echo): <= 1 deviation",
+          "thorough": "all scripts with <= 3 writes, four protocol/transport kinds, with and without echo: <= 2 deviations; scripts with <= 2 "
+                      "writes (plain/server-server and half-closeable/client-server, no echo): <= 3 deviations"}
 ASSUMPTIONS = [
     "trusted base = SimKernel (checks/_c15_kernel.py): Linux tcp_poll readiness masks, one 4-byte pipe per direction standing "
     "for send queue + receive queue, FIN/RST semantics (close with unread data or SO_LINGER 0 resets the peer; data sent to a "
@@ -357,9 +360,9 @@ def judge(env):
                 sub = "skipped-or-reordered"
             else:
                 sub = "corrupted"
-            out.append(("bytes-" + sub, role[o], "%s received %r, %s wrote %r (first difference at %d)" % (o, got, s, w, i)))
+            out.append(("bytes-" + sub, "written-by-" + role[s], "%s received %r, %s wrote %r (first difference at %d)" % (o, got, s, w, i)))
         elif len(got) < len(w) and not rst and p.closed_self and kind != "abort":
-            out.append(("bytes-lost-before-orderly-close", role[o],
+            out.append(("bytes-lost-before-orderly-close", "written-by-" + role[s],
                         "%s wrote %d bytes and then closed in an orderly way, %s received only %d (no reset in the model kernel)" % (
                             s, len(w), o, len(got))))
         # connectionLost exactly once
@@ -390,7 +393,7 @@ def judge(env):
         c = env.connector
         if c.failed:
             out.append(("connector-connectionFailed-on-established-connection", role["A"], repr(c.failed)))
-        if c.lost != 1:
+        if c.lost != 1 and len(env.p["A"].lost) == 1:
             out.append(("connector-connectionLost-called-%d-times" % min(c.lost, 3), role["A"], "client side A"))
     return out
 
@@ -434,7 +437,9 @@ def _scripts(maxw, only_len, pacings, hcs, echos, bound):
 def scripts(tier):
     """[(bound, kinds, pacing, ops, closer, kind, echo)] without the reactor."""
     if tier == "quick":
-        return (_scripts(2, None, PACING, (0, 1, 2, 3), (0,), 2)
+        return (_scripts(2, None, PACING, (0, 3), (0,), 2)
+                + _scripts(2, None, PACING, (1, 2), (0,), 1)
+                + _scripts(2, None, PACING, (0, 1, 2, 3), (1,), 1)
                 + _scripts(3, 3, PACING, (0, 3), (0,), 1))
     return (_scripts(3, None, PACING, (0, 1, 2, 3), (0, 1), 2)
             + _scripts(2, None, PACING, (0, 3), (0,), 3))
@@ -464,6 +469,8 @@ def run_shard(shard, tier, seed):
         for ch, env in explore(lambda c: run_case(c, case, base), bound=bound):
             st.evaluations += 1
             st.transitions += env.steps
+            if env.steps > st.counters.get("steps_max", 0):
+                st.counters["steps_max"] = env.steps
             for snap in env.states:
                 states.add(hash((case, snap)))
             fl = env.k.flags
